@@ -1,7 +1,7 @@
 import AmcVerif.Props.C04g
 /-! C04 (a pool of two sets, EACH WITH ITS OWN COMPARATOR OBJECT) — `C04_pool_history` generalised: the two SmallSets are ordered by
 two different comparator objects `c0`, `c1` (two states of one stateful comparator type, e.g. `v % 7` and `v % 10`).  Every generated
-member is run with the comparator object of the set it is called on; `operator==` gets both (`Gen.SmallSet.op_eq c0 N s0 c1 s1`).
+member is run with the comparator object of the set it is called on; `operator==` / `operator<` get both (`Gen.SmallSet.op_eq c0 N s0 c1 s1`, `op_lt`).
 MODELLING DECISION for `swap` (hand-written, stated here because the generated `swap` has a single comparator parameter that it never
 uses): `SmallSet::key_comp()` is `_set.key_comp()` (smallset.hpp:221) — the comparator object lives in the backing set — and
 `SmallSet::swap` is `_vec.swap(o._vec); _set.swap(o._set)` (smallset.hpp:449-453), so the comparator objects are exchanged together
@@ -15,32 +15,34 @@ variable {α : Type}
 
 abbrev Cmp (α : Type) := α → α → Bool
 
-def stepG2c (N : Nat) (eqT : Cmp α) (p : (SSet α × Cmp α) × (SSet α × Cmp α)) :
+def stepG2c (N : Nat) (eqT ltT : Cmp α) (p : (SSet α × Cmp α) × (SSet α × Cmp α)) :
     POp α → Option (((SSet α × Cmp α) × (SSet α × Cmp α)) × SOut)
   | .on0 op => (stepG p.1.2 N p.1.1 op).map (fun r => (((r.1, p.1.2), p.2), r.2))
   | .on1 op => (stepG p.2.2 N p.2.1 op).map (fun r => ((p.1, (r.1, p.2.2)), r.2))
   | .swp => (Gen.SmallSet.swap p.1.2 N p.1.1 p.2.1).map (fun r => (((r.1, p.2.2), (r.2.1, p.1.2)), SOut.unit))
   | .eq => (Gen.SmallSet.op_eq p.1.2 N p.1.1 p.2.2 p.2.1 eqT).map (fun r => (p, SOut.flag r.1))
+  | .less => (Gen.SmallSet.op_lt p.1.2 N p.1.1 p.2.2 p.2.1 ltT).map (fun r => (p, SOut.flag r.1))
 
-def stepA2c (eqT : Cmp α) (a : (List α × Cmp α) × (List α × Cmp α)) : POp α → ((List α × Cmp α) × (List α × Cmp α)) × SOut
+def stepA2c (eqT ltT : Cmp α) (a : (List α × Cmp α) × (List α × Cmp α)) : POp α → ((List α × Cmp α) × (List α × Cmp α)) × SOut
   | .on0 op => ((((stepA a.1.2 a.1.1 op).1, a.1.2), a.2), (stepA a.1.2 a.1.1 op).2)
   | .on1 op => ((a.1, ((stepA a.2.2 a.2.1 op).1, a.2.2)), (stepA a.2.2 a.2.1 op).2)
   | .swp => ((a.2, a.1), SOut.unit)
   | .eq => (a, SOut.flag (Gen.SmallSet.vecEq eqT a.1.1 a.2.1))
+  | .less => (a, SOut.flag (Gen.SmallSet.vecLess ltT a.1.1 a.2.1))
 
-def runG2c (N : Nat) (eqT : Cmp α) : (SSet α × Cmp α) × (SSet α × Cmp α) → List (POp α) →
+def runG2c (N : Nat) (eqT ltT : Cmp α) : (SSet α × Cmp α) × (SSet α × Cmp α) → List (POp α) →
     Option (((SSet α × Cmp α) × (SSet α × Cmp α)) × List SOut)
   | p, [] => some (p, [])
   | p, op :: ops =>
-    match stepG2c N eqT p op with
+    match stepG2c N eqT ltT p op with
     | none => none
-    | some (p', o) => (runG2c N eqT p' ops).map (fun r => (r.1, o :: r.2))
+    | some (p', o) => (runG2c N eqT ltT p' ops).map (fun r => (r.1, o :: r.2))
 
-def runA2c (eqT : Cmp α) : (List α × Cmp α) × (List α × Cmp α) → List (POp α) →
+def runA2c (eqT ltT : Cmp α) : (List α × Cmp α) × (List α × Cmp α) → List (POp α) →
     ((List α × Cmp α) × (List α × Cmp α)) × List SOut
   | a, [] => (a, [])
   | a, op :: ops =>
-    ((runA2c eqT (stepA2c eqT a op).1 ops).1, (stepA2c eqT a op).2 :: (runA2c eqT (stepA2c eqT a op).1 ops).2)
+    ((runA2c eqT ltT (stepA2c eqT ltT a op).1 ops).1, (stepA2c eqT ltT a op).2 :: (runA2c eqT ltT (stepA2c eqT ltT a op).1 ops).2)
 
 /-- each set satisfies the invariant for, and is represented by the `std::set` ordered by, the comparator object it owns; the
     `std::set`s own the same comparator objects -/
@@ -48,9 +50,9 @@ def Rep2c (N : Nat) (p : (SSet α × Cmp α) × (SSet α × Cmp α)) (a : (List 
   a.1.2 = p.1.2 ∧ a.2.2 = p.2.2 ∧ SWO p.1.2 ∧ SWO p.2.2 ∧ p.1.1.Inv p.1.2 N ∧ p.2.1.Inv p.2.2 N
     ∧ Rep p.1.2 p.1.1 a.1.1 ∧ Rep p.2.2 p.2.1 a.2.1
 
-theorem C04_poolc_step (N : Nat) (eqT : Cmp α) (p : (SSet α × Cmp α) × (SSet α × Cmp α))
+theorem C04_poolc_step (N : Nat) (eqT ltT : Cmp α) (p : (SSet α × Cmp α) × (SSet α × Cmp α))
     (a : (List α × Cmp α) × (List α × Cmp α)) (h : Rep2c N p a) (op : POp α) :
-    ∃ p' o, stepG2c N eqT p op = some (p', o) ∧ o = (stepA2c eqT a op).2 ∧ Rep2c N p' (stepA2c eqT a op).1 := by
+    ∃ p' o, stepG2c N eqT ltT p op = some (p', o) ∧ o = (stepA2c eqT ltT a op).2 ∧ Rep2c N p' (stepA2c eqT ltT a op).1 := by
   obtain ⟨⟨s0, c0⟩, ⟨s1, c1⟩⟩ := p
   obtain ⟨⟨a0, d0⟩, ⟨a1, d1⟩⟩ := a
   obtain ⟨e0, e1, w0, w1, h0, h1, r0, r1⟩ := h
@@ -68,24 +70,28 @@ theorem C04_poolc_step (N : Nat) (eqT : Cmp α) (p : (SSet α × Cmp α) × (SSe
   | eq =>
     obtain ⟨q, _⟩ := C04_gen_eq_repr w0 w1 N s0 s1 h0 h1 eqT a0 a1 r0.1 r0.2 r1.1 r1.2
     exact ⟨((s0, d0), (s1, d1)), SOut.flag (Gen.SmallSet.vecEq eqT a0 a1), by simp [stepG2c, q], rfl, rfl, rfl, w0, w1, h0, h1, r0, r1⟩
+  | less =>
+    have q : Gen.SmallSet.op_lt d0 N s0 d1 s1 ltT = some (Gen.SmallSet.vecLess ltT a0 a1, 0) := by
+      rw [op_lt_eq]; simp only [ltS, ← Rep_unique w0 N s0 h0 _ r0, ← Rep_unique w1 N s1 h1 _ r1]
+    exact ⟨((s0, d0), (s1, d1)), SOut.flag (Gen.SmallSet.vecLess ltT a0 a1), by simp [stepG2c, q], rfl, rfl, rfl, w0, w1, h0, h1, r0, r1⟩
 
 /-- **every history over a pool of two sets with their own comparator objects** -/
-theorem C04_poolc_history (N : Nat) (eqT : Cmp α) (ops : List (POp α)) :
+theorem C04_poolc_history (N : Nat) (eqT ltT : Cmp α) (ops : List (POp α)) :
     ∀ p a, Rep2c N p a →
-      ∃ p' outs, runG2c N eqT p ops = some (p', outs) ∧ outs = (runA2c eqT a ops).2 ∧ Rep2c N p' (runA2c eqT a ops).1 := by
+      ∃ p' outs, runG2c N eqT ltT p ops = some (p', outs) ∧ outs = (runA2c eqT ltT a ops).2 ∧ Rep2c N p' (runA2c eqT ltT a ops).1 := by
   induction ops with
   | nil => intro p a h; exact ⟨p, [], rfl, rfl, h⟩
   | cons op ops ih =>
     intro p a h
-    obtain ⟨p1, o, hg, ho, h1⟩ := C04_poolc_step N eqT p a h op
+    obtain ⟨p1, o, hg, ho, h1⟩ := C04_poolc_step N eqT ltT p a h op
     obtain ⟨p2, outs, hg2, ho2, h2⟩ := ih p1 _ h1
     exact ⟨p2, o :: outs, by simp [runG2c, hg, hg2], by simp [runA2c, ho, ho2], h2⟩
 
 /-- from two empty sets constructed with the comparator objects `c0`, `c1` -/
-theorem C04_poolc_from_empty (c0 c1 : Cmp α) (w0 : SWO c0) (w1 : SWO c1) (N : Nat) (eqT : Cmp α) (ops : List (POp α)) :
-    ∃ p' outs, runG2c N eqT ((⟨[], []⟩, c0), (⟨[], []⟩, c1)) ops = some (p', outs)
-      ∧ outs = (runA2c eqT (([], c0), ([], c1)) ops).2 ∧ Rep2c N p' (runA2c eqT (([], c0), ([], c1)) ops).1 :=
-  C04_poolc_history N eqT ops _ _
+theorem C04_poolc_from_empty (c0 c1 : Cmp α) (w0 : SWO c0) (w1 : SWO c1) (N : Nat) (eqT ltT : Cmp α) (ops : List (POp α)) :
+    ∃ p' outs, runG2c N eqT ltT ((⟨[], []⟩, c0), (⟨[], []⟩, c1)) ops = some (p', outs)
+      ∧ outs = (runA2c eqT ltT (([], c0), ([], c1)) ops).2 ∧ Rep2c N p' (runA2c eqT ltT (([], c0), ([], c1)) ops).1 :=
+  C04_poolc_history N eqT ltT ops _ _
     ⟨rfl, rfl, w0, w1, ⟨fun _ => rfl, by simp, by simp [NoEquivDup], by simp [Sorted]⟩,
      ⟨fun _ => rfl, by simp, by simp [NoEquivDup], by simp [Sorted]⟩, Rep_empty, Rep_empty⟩
 
@@ -96,8 +102,8 @@ theorem exGt_swo : SWO exGt where
   trans := by intro a b c h1 h2; simp [exGt] at *; omega
   cotrans := by intro a b c h; simp [exGt] at *; omega
 
-example : ∃ p' outs, runG2c 2 (fun a b => a == b) ((⟨[], []⟩, exLt), (⟨[], []⟩, exGt))
-      [.on0 (.insR [3, 1, 2]), .on1 (.insR [1, 2, 3]), .eq, .swp, .on0 (.ins 9), .on1 (.del 2), .eq] = some (p', outs) :=
-  let ⟨p', outs, h, _⟩ := C04_poolc_from_empty exLt exGt exLt_swo exGt_swo 2 (fun a b => a == b) _; ⟨p', outs, h⟩
+example : ∃ p' outs, runG2c 2 (fun a b => a == b) exLt ((⟨[], []⟩, exLt), (⟨[], []⟩, exGt))
+      [.on0 (.insR [3, 1, 2]), .on1 (.insR [1, 2, 3]), .eq, .swp, .on0 (.ins 9), .on1 (.del 2), .eq, .less] = some (p', outs) :=
+  let ⟨p', outs, h, _⟩ := C04_poolc_from_empty exLt exGt exLt_swo exGt_swo 2 (fun a b => a == b) exLt _; ⟨p', outs, h⟩
 
 end AmcVerif.Props.C04
